@@ -487,20 +487,33 @@ theorem setAst_root_wf (s : State) (new : Ast) (h : WF s)
 
 /-- an operation the theorems cover, in state `s`: `_set_ast` with the default flags on the root FST or on the FST of a
 non-root node of the tree, `_set_field` with the default flags on the FST of any node of the tree, both with fresh pairwise distinct
-new ASTs (none has an FST in `s`); `_touch` of any FST. (`_touchall` and the non-default flags are outside this
-predicate: correspondence only.) -/
+new ASTs (none has an FST in `s`); `_touch` / `_touchall` of any FST with any flags. (The non-default flags of
+`_set_ast` / `_set_field` are outside this predicate: correspondence only.) -/
 def Admissible (s : State) : Op → Prop
   | .setAst f new v u => v = false ∧ u = true ∧ (ids new).Nodup ∧ (∀ x ∈ ids new, s.σ.astF x = none) ∧
       (f = s.rootF ∨ ∃ old, findId old.id s.root = some old ∧ s.σ.astF old.id = some f ∧ s.root.id ≠ old.id)
   | .setField f _ _ new v u => v = false ∧ u = true ∧ ∃ P, findId P.id s.root = some P ∧ s.σ.astF P.id = some f ∧
       (idsList new).Nodup ∧ ∀ x ∈ idsList new, s.σ.astF x = none
   | .touch _ => True
-  | .touchall _ _ _ _ => False
+  | .touchall _ _ _ _ => True
 
 /-- every operation of the sequence is admissible in the state it is applied to -/
 def AdmissibleRun : State → List Op → Prop
   | _, [] => True
   | s, o :: rest => Admissible s o ∧ AdmissibleRun (step s o) rest
+
+/-- **wf_cacheOnly**: an operation that only empties caches (`_touch`, `_touchall` with any flags) keeps the state well
+formed. -/
+theorem wf_cacheOnly (s : State) (σ' : Store) (h : CacheOnly s.σ σ') (hw : WF s) : WF { s with σ := σ' } := by
+  obtain ⟨hinv, hnd, hbd, hfl⟩ := hw
+  refine ⟨?_, hnd, ?_, hfl⟩
+  · simp only [LinkInv, linkInvB] at hinv ⊢
+    simp only [linkedB_cacheOnly h, h.1]
+    exact hinv
+  · intro x hx g hg
+    simp only [h.1] at hg
+    simp only [h.2.1]
+    exact hbd x hx g hg
 
 /-- **step_wf**: one admissible operation keeps the state well formed. -/
 theorem step_wf (s : State) (o : Op) (h : WF s) (ha : Admissible s o) : WF (step s o) := by
@@ -520,7 +533,11 @@ theorem step_wf (s : State) (o : Op) (h : WF s) (ha : Admissible s o) : WF (step
   | touch f =>
     obtain ⟨hinv, hnd, hbd, hfl⟩ := h
     exact ⟨(touch_preserves_links s f).mpr hinv, hnd, hbd, hfl⟩
-  | touchall f p sf c => exact absurd ha id
+  | touchall f p sf c =>
+    simp only [step]
+    split
+    · next t _ => exact wf_cacheOnly s _ (touchall_cacheOnly s.σ f t p sf c) h
+    · exact h
 
 /-- **run_wf**: the link invariant (with pairwise distinct ASTs and existing FST objects) holds in every state reached
 from a well-formed state by any sequence of admissible operations, of any length. -/
@@ -584,7 +601,7 @@ theorem admissibleB_sound (s : State) (o : Op) (h : admissibleB s o = true) : Ad
       obtain ⟨hn, hfr⟩ := freshB_spec _ _ hm.2
       exact ⟨hv, hu, P, hfi, hm.1, hn, hfr⟩
   | touch f => trivial
-  | touchall f p sf c => simp [admissibleB] at h
+  | touchall f p sf c => trivial
 
 /-- **step_wfB**: the executable form the correspondence uses: if the driver reports `wfB` for the state before a call
 and `admissibleB` for the call, then `wfB` (in particular the link invariant `linkInvB`) holds for the model's state
@@ -844,6 +861,9 @@ example : WF s1 := ⟨by unfold LinkInv; decide, by decide, by decide, rfl⟩
 example : AdmissibleRun s1 [.setAst 3 newCall false true, .setField 0 "body" true newBody false true, .touch 0] := by
   refine ⟨⟨rfl, rfl, by decide, by decide, Or.inr ⟨listSub, rfl, by decide, by decide⟩⟩,
     ⟨rfl, rfl, s2.root, rfl, by decide, by decide, by decide⟩, trivial, trivial⟩
+example : WF (run s1 [.setAst 3 newCall false true, .touchall 3 true true true, .touchall 0 false true false]) :=
+  run_wf _ s1 ⟨by unfold LinkInv; decide, by decide, by decide, rfl⟩
+    ⟨⟨rfl, rfl, by decide, by decide, Or.inr ⟨listSub, rfl, by decide, by decide⟩⟩, trivial, trivial, trivial⟩
 -- the executable premises agree on the same history, root-position `_set_ast` included
 example : wfB s1 = true ∧ admissibleB s1 (.setAst 3 newCall false true) = true ∧
     admissibleB s1 (.setAst 0 (.mk 30 "Module" none [ .mk 31 "Pass" (fld "body" (some 0)) [] ]) false true) = true ∧
